@@ -1083,6 +1083,22 @@ def sym_floor(x):
     raise SymUnsupported('integer fork budget exceeded in floor()')
 
 
+def sym_unique_value(x):
+    """concrete float value of x when the path condition pins it (forks over the feasible values otherwise,
+    within the integer-fork budget)."""
+    if not isinstance(x, SR):
+        return x
+    if x.is_const():
+        return float(x.const_value())
+    eng = ST.engine
+    for _ in range(eng.max_int_forks):
+        v = eng.model_value(x)
+        if bool(x == SR.const(v)):
+            f = float(v)
+            return int(f) if f.is_integer() else f
+    raise SymUnsupported('value is not pinned by the path condition')
+
+
 def sym_ceil(x):
     if not isinstance(x, SR):
         return int(math.ceil(x))
